@@ -93,3 +93,88 @@ Proof.
       try reflexivity; pows; apply b2n_nonzero_small; exact Hf.
   - intros g Hg. destruct h as [pt es scb an sl pn sci]; destruct f; try discriminate Hs; destruct g; try congruence; reflexivity.
 Qed.
+
+(* ======================================================================= *)
+(* the std::io read paths: never UB, only in-range values                   *)
+(* ======================================================================= *)
+
+Lemma getu_ok s i b : bytes_ok s -> getu s i = Val b -> b < 256.
+Proof.
+  unfold getu. intros Hs. destruct (rd s i) as [x|] eqn:E; [|discriminate].
+  intros [= <-]. exact (rd_ok _ _ _ Hs E).
+Qed.
+
+Lemma getu_fail s i f : getu s i = Fail f -> f = OOB.
+Proof. unfold getu. destruct (rd s i); [discriminate|]. intros [= <-]. reflexivity. Qed.
+
+Lemma getu_n_fail s o n f : getu_n s o n = Fail f -> f = OOB.
+Proof. unfold getu_n. destruct (o + n <=? len s); [discriminate|]. intros [= <-]. reflexivity. Qed.
+
+Lemma no_ub_fail {A} f (P : A -> Prop) : f <> UBRange -> no_ub (Fail f) P.
+Proof. intros H. split; [congruence|discriminate]. Qed.
+
+Lemma no_ub_val {A} (a : A) (P : A -> Prop) : P a -> no_ub (Val a) P.
+Proof. intros H. split; [discriminate|]. intros x [= <-]. exact H. Qed.
+
+Ltac step Hs :=
+  match goal with
+  | |- no_ub (bind (getu ?s ?i) _) _ =>
+      let b := fresh "b" in let f := fresh "f" in let E := fresh "E" in let Hb := fresh "Hb" in
+      destruct (getu s i) as [b|f] eqn:E; cbn [bind];
+      [ pose proof (getu_ok _ _ _ Hs E) as Hb
+      | apply getu_fail in E; subst f; apply no_ub_fail; discriminate ]
+  | |- no_ub (bind (getu_n ?s ?o ?n) _) _ =>
+      let b := fresh "l" in let f := fresh "f" in let E := fresh "E" in
+      destruct (getu_n s o n) as [b|f] eqn:E; cbn [bind];
+      [ | apply getu_n_fail in E; subst f; apply no_ub_fail; discriminate ]
+  | |- no_ub (if ?c then Fail ?f else _) _ =>
+      destruct c; [apply no_ub_fail; discriminate|]
+  end.
+
+Lemma Ipv4Header_read_in_range reader : bytes_ok reader -> no_ub (Ipv4Header_read reader) v4_in_range.
+Proof.
+  intros Hr. unfold Ipv4Header_read. destruct reader as [|first rest]; [apply no_ub_fail; discriminate|].
+  apply bytes_ok_cons in Hr. destruct Hr as [Hf Hrest].
+  step Hrest. unfold Ipv4Header_read_without_version. step Hrest.
+  assert (Hs : bytes_ok (first :: take 19 rest)).
+  { apply bytes_ok_cons. split; [exact Hf|]. apply bytes_ok_take. exact Hrest. }
+  cbv zeta. repeat step Hs.
+  pose proof (dec1_all _ Hb0) as C1. unfold dec_chk1 in C1.
+  pose proof (dec2_all _ _ Hb5 Hb6) as C2. unfold dec_chk2 in C2. cbv zeta in C2. split_all.
+  unfold IpDscp_new_unchecked, IpEcn_new_unchecked, IpFragOffset_new_unchecked,
+    IpDscp_MAX_U8, IpEcn_MAX_U8, IpFragOffset_MAX_U16.
+  rewrite !unchecked_ok by assumption. cbn [bind].
+  repeat step Hs.
+  apply no_ub_val. unfold v4_in_range, IpDscp_MAX_U8, IpEcn_MAX_U8, IpFragOffset_MAX_U16.
+  cbn [v4_dscp v4_ecn v4_fragment_offset]. auto.
+Qed.
+
+Lemma rd_tc_sweep :
+  forallb (fun a => forallb (fun b => N.lor (shl8 a 4) (N.shiftr b 4) <? 256) (range 256)) (range 256) = true.
+Proof. vm_compute. reflexivity. Qed.
+Lemma rd_nib_sweep : forallb (fun a => N.land a 15 <? 256) (range 256) = true.
+Proof. vm_compute. reflexivity. Qed.
+
+Lemma Ipv6Header_read_in_range reader : bytes_ok reader -> no_ub (Ipv6Header_read reader) v6_in_range.
+Proof.
+  intros Hr. unfold Ipv6Header_read. destruct reader as [|value rest]; [apply no_ub_fail; discriminate|].
+  apply bytes_ok_cons in Hr. destruct Hr as [Hf Hrest].
+  step Hrest. unfold Ipv6Header_read_without_version. step Hrest.
+  assert (Hs : bytes_ok (take 39 rest)) by (apply bytes_ok_take; exact Hrest).
+  cbv zeta. repeat step Hs.
+  unfold Ipv6FlowLabel_new_unchecked.
+  rewrite unchecked_ok by (apply flow_raw_le; assumption). cbn [bind].
+  repeat step Hs.
+  apply no_ub_val. unfold v6_in_range. cbn [v6_traffic_class v6_flow_label]. split.
+  - apply N.ltb_lt. apply (sweep2 256 256 _ rd_tc_sweep); [|assumption].
+    apply N.ltb_lt. apply (sweep 256 _ rd_nib_sweep). exact Hf.
+  - apply flow_raw_le; assumption.
+Qed.
+
+Lemma SingleVlanHeader_from_bytes_in_range a b c d : a < 256 -> b < 256 ->
+  no_ub (SingleVlanHeader_from_bytes a b c d) vlan_in_range.
+Proof.
+  intros Ha Hb. pose proof (dec2_all a b Ha Hb) as C. unfold dec_chk2 in C. cbv zeta in C. split_all.
+  unfold SingleVlanHeader_from_bytes, VlanPcp_new_unchecked, VlanId_new_unchecked, VlanPcp_MAX_U8, VlanId_MAX_U16.
+  rewrite !unchecked_ok by assumption. cbn [bind]. apply no_ub_val. unfold vlan_in_range, VlanPcp_MAX_U8, VlanId_MAX_U16. cbn [vlan_pcp vlan_id]. auto.
+Qed.
